@@ -46,6 +46,7 @@ type LV struct {
 	Str           bool
 	Typ           types.Type
 	Path          []Sel // place of the array inside the cell (slices of arrays); nil for plain backing stores
+	Frozen        *State // contracts only: old(s) reads its backing store in this state
 }
 
 type Sel struct {
@@ -56,10 +57,11 @@ type Sel struct {
 
 // PV: pointer to a place (cell + path).
 type PV struct {
-	Cell  int
-	Path  []Sel
-	IsNil *Term
-	Typ   types.Type // pointer type
+	Cell   int
+	Path   []Sel
+	IsNil  *Term
+	Typ    types.Type // pointer type
+	Frozen *State     // contracts only: old(p) dereferences in this state
 }
 
 // FV: a map value modelled as two SMT arrays over an abstract key sort (see C10).
@@ -583,6 +585,20 @@ func (c *FCtx) valIte(cond *Term, a, b Val) (Val, bool) {
 		return TV{fs, x.Typ}, true
 	case LV:
 		y, ok := b.(LV)
+		if ok && x.IsNil.IsTrue() && !y.IsNil.IsTrue() {
+			r := y
+			r.IsNil = Ite(cond, True(), y.IsNil)
+			r.Len = Ite(cond, Num(0), y.Len)
+			r.Cap = Ite(cond, Num(0), y.Cap)
+			return r, true
+		}
+		if ok && y.IsNil.IsTrue() && !x.IsNil.IsTrue() {
+			r := x
+			r.IsNil = Ite(cond, x.IsNil, True())
+			r.Len = Ite(cond, x.Len, Num(0))
+			r.Cap = Ite(cond, x.Cap, Num(0))
+			return r, true
+		}
 		if !ok || x.Cell != y.Cell || !samePath(x.Path, y.Path) {
 			return nil, false
 		}
